@@ -5,6 +5,8 @@ use std::fs::File;
 use std::io::{BufWriter, Write};
 use std::path::{Path, PathBuf};
 
+pub mod surf;
+
 pub mod rng {
     /// xorshift64* — every random choice of a run derives from one of these, seeded from
     /// VERIF_SEED (and a per-stream salt), so a disagreement replays exactly.
@@ -307,6 +309,65 @@ pub mod child {
                     std::thread::sleep(Duration::from_millis(2));
                 }
             }
+        }
+    }
+    /// Run `inputs` through a child (`args`, usually `["--child", mode]`) that reads one JSON
+    /// string per line on stdin and prints one line `R <json string>` per input, in order. When
+    /// the child dies or hangs at some input that input's result is `Err(class)` and a new child
+    /// continues with the next one. `timeout` is per batch.
+    pub fn batch(args: &[&str], inputs: &[String], chunk: usize, timeout: Duration) -> Vec<Result<String, String>> {
+        let mut results: Vec<Result<String, String>> = Vec::with_capacity(inputs.len());
+        let mut start = 0;
+        while start < inputs.len() {
+            let end = (start + chunk).min(inputs.len());
+            let mut payload = String::new();
+            for i in &inputs[start..end] {
+                payload.push_str(&serde_json::to_string(i).unwrap());
+                payload.push('\n');
+            }
+            let exit = run(args, payload.as_bytes(), timeout);
+            let (out, class) = match &exit {
+                Exit::Ok(o) => (o.clone(), None),
+                Exit::Code(_, o, _) | Exit::Signal(_, o, _) => (o.clone(), Some(exit.class())),
+                Exit::Timeout(o) => (o.clone(), Some(exit.class())),
+            };
+            let mut n = 0;
+            for line in out.lines() {
+                if let Some(rest) = line.strip_prefix("R ") {
+                    if start + n < end {
+                        results.push(Ok(serde_json::from_str::<String>(rest).unwrap_or_else(|_| rest.to_string())));
+                        n += 1;
+                    }
+                }
+            }
+            if start + n < end {
+                // the child stopped before answering input `start + n`
+                results.push(Err(class.unwrap_or_else(|| "exit:incomplete".to_string())));
+                n += 1;
+            }
+            start += n;
+        }
+        results
+    }
+
+    /// Child side of `batch`: calls `f` for every input line and prints the answers.
+    pub fn serve(mut f: impl FnMut(&str) -> String) {
+        use std::io::BufRead;
+        let stdin = std::io::stdin();
+        let stdout = std::io::stdout();
+        for line in stdin.lock().lines() {
+            let line = match line {
+                Ok(l) => l,
+                Err(_) => break,
+            };
+            if line.is_empty() {
+                continue;
+            }
+            let input: String = serde_json::from_str(&line).unwrap_or(line);
+            let r = f(&input);
+            let mut o = stdout.lock();
+            let _ = writeln!(o, "R {}", serde_json::to_string(&r).unwrap());
+            let _ = o.flush();
         }
     }
 }
